@@ -1,5 +1,5 @@
-/- Engine `order` (C13): not built yet. -/
-import Driver.Common
+/- Engine `order` (C13): same op protocol and model as engine `save` (mode `perm`). -/
+import Driver.SaveEngine
 namespace Driver.OrderEngine
-def engine : Driver.Engine := Driver.stateless (fun _ => "unimplemented")
+def engine : Driver.Engine := Driver.SaveEngine.engine
 end Driver.OrderEngine
